@@ -1,6 +1,6 @@
 (** Pinned statements of the C04 property theorems: compiled on every check, so a theorem cannot be
     weakened silently. *)
-From V Require Import Base.Util Gql.Ast C03.Model C03.Spec C03.Witness C03.Proofs C03.Proofs2 C04.Proofs C04.Properties.
+From V Require Import Base.Util Gql.Ast C03.Model C03.Spec C03.Witness C03.Proofs C03.Proofs2 C03.Proofs3 C04.Proofs C04.Properties.
 
 Check (C04_type_compat_complete : forall vt lt, types_compatible vt lt = true -> type_compat vt lt = true).
 Check (C04_check_value_complete : forall S vars,
@@ -9,6 +9,22 @@ Check (C04_check_value_complete : forall S vars,
     resolves S t = true -> lit_ok S v t = true ->
     Forall (use_strict vars) (var_uses false S v (Some t) ld) ->
     check_value S vars v t = []).
+Check (C04_check_arguments_complete : forall S vars,
+  schema_wf S = true -> input_types_closed S = true ->
+  forall ppos pname kind args defs,
+    (forall d, In d defs -> resolves S (iv_type d) = true) ->
+    (forall a, args = Some a -> args_list a <> []) ->
+    args_defined_ok (provided args, defs) = true ->
+    required_args_ok (provided args, defs) = true ->
+    literal_types_vis S (provided args, defs) = true ->
+    Forall (use_strict vars) (args_var_uses false S (provided args) defs) ->
+    check_arguments S vars ppos pname kind args defs = []).
+Check (C04_check_directives_complete : forall S vars,
+  schema_wf S = true -> input_types_closed S = true ->
+  forall loc ds,
+    (forall d, In d ds -> directive_fine S vars loc d) ->
+    nodup_str (nonrep S ds) = true ->
+    check_directives S vars loc ds = []).
 Check (C04_guard_satisfiable : schema_wf w_schema_0 = true /\ input_types_closed w_schema_0 = true).
 Check (C04_variable_default_position_refuted :
   exists S D, spec_valid S D = true /\ check_operation_document S D <> []).
@@ -20,6 +36,8 @@ Check (C04_valid_documents_accepted :
           [w_doc_6; w_doc_7; w_doc_14] = true).
 Print Assumptions C04_type_compat_complete.
 Print Assumptions C04_check_value_complete.
+Print Assumptions C04_check_arguments_complete.
+Print Assumptions C04_check_directives_complete.
 Print Assumptions C04_guard_satisfiable.
 Print Assumptions C04_variable_default_position_refuted.
 Print Assumptions C04_subscription_same_field_refuted.
